@@ -1165,10 +1165,27 @@ func inParseFloat(x *Exec, s *State, a []Value, _ *ssa.Call) []Outcome {
 	}
 	x.parseFloatN++
 	choice := x.Ctx.Var(fmt.Sprintf("parsefloat_ok_%d", x.parseFloatN), 8)
+	// the stub is a function of its argument: equal strings give equal answers
+	for _, prev := range x.pfCalls {
+		if len(prev.str.B) != len(str.B) {
+			continue
+		}
+		same := c.Implies(x.strEq(prev.str, str), c.Eq(prev.choice, choice))
+		if same != smt.True {
+			s.PC = append(s.PC, same)
+			s.Model = nil
+		}
+	}
+	x.pfCalls = append(x.pfCalls, pfCall{str, choice})
 	succ := c.And(okAlpha, c.Eq(choice, smt.Byte(1)))
 	x.noteAssume("strconv.ParseFloat: err == nil only for non-empty strings over [" + floatAlphabet + "] (nondeterministic otherwise)")
 	return []Outcome{
 		{Cond: succ, Val: Tuple{Opaque{"float"}, Iface{}}},
 		{Cond: c.Not(succ), Val: Tuple{Opaque{"float"}, Iface{T: x.W.ErrType, V: x.W.newExt("error", nil)}}},
 	}
+}
+
+type pfCall struct {
+	str    Str
+	choice *smt.Term
 }
